@@ -16,6 +16,10 @@ import CookModel.Lemmas.RoundtripAnalysis
 import CookModel.Lemmas.RoundtripRecipe
 import CookModel.Lemmas.RoundtripSections
 import CookModel.Lemmas.RoundtripDocRecipe
+import CookModel.Lemmas.ClosingStream
+import CookModel.Lemmas.CollectorRefIff
+import CookModel.Lemmas.CollectorShape
+import CookModel.Lemmas.CollectorLast
 /-
   C01  Printing a recipe as Cooklang and parsing it returns that recipe.
 
@@ -1000,9 +1004,9 @@ theorem C01_analysis_doc {α : Type} [Arith α] (env : Env) (input : Str)
     (blocks : List (SBlock α)) (hok : ∀ b ∈ blocks, b.OK env) :
     ∃ c : Col α, parseEvents env input (blocks.flatMap SBlock.events) = ⟨some c, c.diags, none⟩ ∧
       c.sections = docSecs env [] ⟨none, []⟩ 1 blocks ∧
-      c.ingredients.toList = (ingrsOf (docItems blocks)).map (ingrOf env) ∧
-      c.cookware.toList = (cwsOf (docItems blocks)).map (cwOf env) ∧
-      c.timers.toList = (timersOf (docItems blocks)).map (timerOf env) ∧
+      c.ingredients.toList = (ingrsOf (docStepItems blocks)).map (ingrOf env) ∧
+      c.cookware.toList = (cwsOf (docStepItems blocks)).map (cwOf env) ∧
+      c.timers.toList = (timersOf (docStepItems blocks)).map (timerOf env) ∧
       c.metaMap = docMeta env [] (docEntries blocks) ∧
       c.diags = deprecation (docSpans (docEntries blocks)) ∧
       c.inlineQ = #[] ∧ c.frontMatter = none :=
@@ -1087,5 +1091,79 @@ example : ¬ (DocItem.metaLine [tk .word "time".toList] [tk .int ['5']] {}).plai
   intro h
   have hk : StdKey.ofStr (String.ofList (leafText [tk .word "time".toList])) = some .time := by decide
   exact absurd (h.2 _ hk).2 (by decide)
+
+/-! ### references: the resolved relation is determined by the text (audit; composes the C06 theorems) -/
+
+/-- **What `&name` resolves to.**  For every input whose parse returns a recipe and NO error (warnings
+    allowed) — so in particular for every correctly spelled recipe — and every ingredient of the table that
+    carries the reference modifier (`&`, written or inherited through `[duplicate]: ref`):
+    * its relation IS a reference and carries its target kind (ingredient, step or section);
+    * if the target kind is `ingredient` (a regular reference), the target index `t` is smaller than the
+      ingredient's own index `k`, the ingredient at `t` is a definition without the reference modifier whose
+      name equals the referrer's up to case folding, it lists `k` in `referenced_from` exactly once, and NO
+      ingredient strictly between `t` and `k` is such a candidate: `t` is the LAST earlier definition of
+      that name.  These conditions have at most one solution `t`, so the relation the parser returns is the
+      one the printer intended (the last definition of the name printed before the reference).
+    The same holds of cookware.  (Step and section targets: `C06_step_reference_target`,
+    `C06_section_reference_target`.) -/
+theorem C01_references_resolved {α : Type} [Arith α] (env : Env) (input : Str) (c : Col α)
+    (h : (parseRecipe (α := α) env input).output = some c)
+    (hno : ∀ d ∈ (parseRecipe (α := α) env input).diags.toList, d.sev ≠ Sev.error) :
+    (∀ (k : Nat) (ig : Ingredient (ScalableValue α)), c.ingredients[k]? = some ig →
+      ig.modifiers.contains Modifiers.REF = true →
+      ∃ t tg, ig.relation = ⟨.reference t, some tg⟩ ∧
+        (tg = .ingredient →
+          t < k ∧ (∃ d, c.ingredients[t]? = some d ∧ d.modifiers.contains Modifiers.REF = false ∧
+            nameEq env ig.name d.name = true ∧ ∃ rf b, d.relation.relation = .definition rf b ∧ rf.count k = 1) ∧
+          ∀ (j : Nat) (x : Ingredient (ScalableValue α)), t < j → j < k → c.ingredients[j]? = some x →
+            ¬ (x.modifiers.contains Modifiers.REF = false ∧ nameEq env ig.name x.name = true))) ∧
+    (∀ (k : Nat) (cw : Cookware (ScalableValue α)), c.cookware[k]? = some cw →
+      cw.modifiers.contains Modifiers.REF = true →
+      ∃ t, cw.relation = .reference t ∧ t < k ∧
+        (∃ d, c.cookware[t]? = some d ∧ d.modifiers.contains Modifiers.REF = false ∧
+          nameEq env cw.name d.name = true ∧ ∃ rf b, d.relation = .definition rf b ∧ rf.count k = 1) ∧
+        ∀ (j : Nat) (x : Cookware (ScalableValue α)), t < j → j < k → c.cookware[j]? = some x →
+          ¬ (x.modifiers.contains Modifiers.REF = false ∧ nameEq env cw.name x.name = true)) := by
+  have hev := pullEvents_evOK (α := α) env.cs env.ext input
+  have hf := parseEventsLoop_inv env input _ {} c (Inv.init env) hev h
+  have hiff : (∀ (k : Nat) (ig : Ingredient (ScalableValue α)), c.ingredients[k]? = some ig →
+        ig.modifiers.contains Modifiers.REF = true → ig.relation.relation.isReference = true) ∧
+      (∀ (k : Nat) (cw : Cookware (ScalableValue α)), c.cookware[k]? = some cw →
+        cw.modifiers.contains Modifiers.REF = true → cw.relation.isReference = true) := by
+    rcases parseEventsLoop_refInv env input _ {} c (Inv.init env) RefInv.init hev h with ⟨d, hd, hs⟩ | ⟨hI, hC⟩
+    · exact absurd hs (hno d hd)
+    · exact ⟨hI, hC⟩
+  have hlast := parseEventsLoop_last env input _ {} c (Inv.init env) ⟨LastI.empty env, LastC.empty env⟩ hev h
+  have hshape := parseEventsLoop_shape env input _ {} c (Inv.init env) ShapeInv.init hev h
+  refine ⟨fun k ig hk hREF => ?_, fun k cw hk hREF => ?_⟩
+  · have hisref := hiff.1 k ig hk hREF
+    rcases hshape.shape k ig hk with ⟨rf, b, hd⟩ | ⟨t, tg, hr⟩
+    · rw [hd] at hisref; cases hisref
+    · refine ⟨t, tg, hr, fun htg => ?_⟩
+      subst htg
+      obtain ⟨h1, d, h2, h3, h4, rf, b, h5, h6⟩ := hf.itab.backl k ig hk t hr
+      exact ⟨h1, ⟨d, h2, h4, h3, rf, b, h5, h6⟩, fun j x htj hjk hx => hlast.1 k ig hk t hr j x htj hjk hx⟩
+  · have hisref := hiff.2 k cw hk hREF
+    cases hr : cw.relation with
+    | definition rf b => rw [hr] at hisref; cases hisref
+    | reference t =>
+      obtain ⟨h1, d, h2, h3, h4, rf, b, h5, h6⟩ := hf.ctab.backl k cw hk t hr
+      exact ⟨t, rfl, h1, ⟨d, h2, h4, h3, rf, b, h5, h6⟩, fun j x htj hjk hx => hlast.2 k cw hk t hr j x htj hjk hx⟩
+
+/-- the target described by `C01_references_resolved` is unique: two indices that both are "the last earlier
+    non-REF entry of that name before `k`" coincide — so the conditions pin the relation down -/
+theorem C01_reference_target_unique {α : Type} [Arith α] (env : Env) (ings : Array (Ingredient (ScalableValue α)))
+    (name : Str) (k t t' : Nat)
+    (ht : t < k ∧ (∃ d, ings[t]? = some d ∧ d.modifiers.contains Modifiers.REF = false ∧ nameEq env name d.name = true) ∧
+      ∀ j x, t < j → j < k → ings[j]? = some x → ¬ (x.modifiers.contains Modifiers.REF = false ∧ nameEq env name x.name = true))
+    (ht' : t' < k ∧ (∃ d, ings[t']? = some d ∧ d.modifiers.contains Modifiers.REF = false ∧ nameEq env name d.name = true) ∧
+      ∀ j x, t' < j → j < k → ings[j]? = some x → ¬ (x.modifiers.contains Modifiers.REF = false ∧ nameEq env name x.name = true)) :
+    t = t' := by
+  obtain ⟨h1, ⟨d, hd, hd1, hd2⟩, h3⟩ := ht
+  obtain ⟨h1', ⟨d', hd', hd1', hd2'⟩, h3'⟩ := ht'
+  rcases Nat.lt_trichotomy t t' with hlt | heq | hgt
+  · exact absurd ⟨hd1', hd2'⟩ (h3 t' d' hlt h1' hd')
+  · exact heq
+  · exact absurd ⟨hd1, hd2⟩ (h3' t d hgt h1 hd)
 
 end Cook
